@@ -110,6 +110,7 @@ class Ctx:
     self.lock = threading.Lock()
     self.iid = 0
     self.aborters = []
+    self.internal_slots = set()
 
   def next_tokens(self, name):
     q = self.script.get(name)
@@ -207,6 +208,12 @@ def _deliver(diag, how):
 def make_diag(ctx, phase_name, i):
   codes = [t[2][i] for t in ctx.script.get(phase_name, []) if len(t) > 2 and len(t[2]) > i]
   always, how = _diag_shape(ctx, 'dg_%s_%d' % (phase_name, i), codes)
+  # non-failure diagnoses of some diagnosers are internal: kept out of the test record's list, but
+  # they reach the diagnoses store (branches, checkpoints, conditional validators) like any other
+  import zlib
+  internal = zlib.crc32(repr(('int', phase_name, i, sorted((k, repr(v)) for k, v in ctx.script.items()))).encode()) % 3 == 0
+  if internal:
+    ctx.internal_slots.add('diag:%s:%d' % (phase_name, i))
 
   def run(phase_record):
     code = ctx.cur[phase_name][2][i]
@@ -218,6 +225,8 @@ def make_diag(ctx, phase_name, i):
       return None
     if always:
       return _deliver(htf.Diagnosis(R[code], 'desc'), how)
+    if internal and not code.isupper():
+      return _deliver(htf.Diagnosis(R[code], 'desc', is_internal=True), how)
     return _deliver(htf.Diagnosis(R[code], 'desc', is_failure=code.isupper()), how)
   return diagnoses_lib.PhaseDiagnoser(R, name='dg_%s_%d' % (phase_name, i), run_func=run, always_fail=always)
 
@@ -455,7 +464,12 @@ def _run_program(prog, calls, hooks=None, timeout_s=None):
   CONF.load(allow_unset_measurements=bool(prog['set']['unset']),
             plug_teardown_timeout_s=3 if hang else 0, _override=True)
   try:
-    ret = test.execute(test_start=start)
+    try:
+      ret = test.execute(test_start=start)
+    except Exception as e:  # pylint: disable=broad-except
+      # execute() itself failing is an observation (compared with the model), not a harness failure
+      ret = 'raised %s' % type(e).__name__
+      crashed.append('execute() raised %s: %s' % (type(e).__name__, e))
   finally:
     threading.excepthook = old_hook
     CONF.load(allow_unset_measurements=False, plug_teardown_timeout_s=0, _override=True)
@@ -468,6 +482,7 @@ def _run_program(prog, calls, hooks=None, timeout_s=None):
   obs['calls'] = [c for c in ctx.calls if not c['n'].startswith('diag:')]
   obs['dcalls'] = [c for c in ctx.calls if c['n'].startswith('diag:')]
   obs['crashed'] = crashed
+  obs['internal_slots'] = sorted(ctx.internal_slots)
   obs['plug_events'] = ctx.plug_events
   obs['events'] = ctx.events
   obs['ncb'] = len(out)
